@@ -259,7 +259,6 @@ pub fn run(run: &mut Run) {
         }
         ts.push(start_fn(start_body));
         let mut p = Program { tops: ts };
-        acc.evaluations += labels.len() as u64;
         acc.programs += 1;
         let opname = job.op.map(|o| o.text().to_string()).unwrap_or("neg".into());
         match run_program(&mut p) {
@@ -287,6 +286,8 @@ pub fn run(run: &mut Run) {
                             continue;
                         }
                         acc.nontrivial(fnv(format!("{}#{}", label, half).as_bytes()));
+                        acc.evaluations += 1;
+                        acc.transitions += 1;
                         if lua[idx] != reference[idx] {
                             acc.outcome("differs-from-structural-definition");
                             let mut files = serde_json::Map::new();
